@@ -125,6 +125,10 @@ func (m *C04) OnBlock(e *Env, blk *world.BlockRecord) {
 				e.Fail("C04", "invalid_confirm_accepted", "", "group %d: confirmation with an invalid own-public-key signature was accepted", mg.ID)
 				return
 			}
+			if _, acted := mg.R3[dm.State.MemberID]; acted {
+				e.Fail("C04", "second_round3_message_accepted", dm.Kind, "group %d: member %d had already confirmed or complained; a further confirmation was accepted", mg.ID, dm.State.MemberID)
+				return
+			}
 			mg.R3[dm.State.MemberID] = "confirm"
 		default: // complaint
 			compl := dm.State.MemberID
